@@ -18,7 +18,7 @@ LEVEL_NOTE = "trusted: the reference ledger's forward replay"
 
 
 def runs(tier, seed):
-    return [cc.make_run("reorg", tier, 48, 1200)]
+    return [cc.make_run("reorg", tier, 32, 480)]
 
 
 def check(rec, st):
